@@ -9,7 +9,7 @@ git checkout -q -- . && git checkout -q --detach "$H" || { echo "RESULT checkout
 rm -f "$W/$DEST"
 git apply "$D" || { echo "RESULT patch does not apply to $H"; exit 3; }
 echo "== suite with change ($D at $H)"
-cargo nextest run --workspace --no-fail-fast --offline --test-threads 8 2>&1 | grep -E "Summary|FAIL|error(\[|:)" | head -20
+cargo nextest run --workspace --no-fail-fast --offline --test-threads 4 2>&1 | grep -E "Summary|FAIL|error(\[|:)" | head -20
 echo "== demo with change (must fail)"
 cp "$DEMO" "$W/$DEST"
 cargo test --offline "$@" 2>&1 | grep -E "^test |test result|panicked|error(\[|:)" | head -20
